@@ -91,7 +91,7 @@ Build(d) ==
          (* Equals: TRUE exactly when every position compares equal *)
          LET a == SymT("a", d[3])
              b == SymT("b", d[3])
-         IN MkCase("c03", "equals", <<In("a", d[3], FALSE), In("b", d[3], FALSE)>>, <<"ties", "ties,copy">>,
+         IN MkCase("c03", "equals", <<In("a", d[3], FALSE), In("b", d[3], FALSE)>>, <<"ties", "ties,copy,copy200">>,       \* copy200: equal but for one element 1e-200 off (far above the tolerance 1e-240)
                    <<Ins("eq", NoPar, <<1, 2>>)>>, <<3>>, 0, TRUE)
             @@ [scal |-> <<[op |-> "equals", node |-> 1, node2 |-> 2,
                             val |-> Enc(MinL([p \in DOMAIN a.data |-> Cmp("eq", a.data[p], b.data[p])]))]>>]
